@@ -26,7 +26,24 @@ TwinGraph == << <<Tr("", 1, 2), Tr("", 1, 3)>>, <<Tr("", 1, 4), Tr("", 1, 5)>>, 
 TwinA == [n |-> 5, owner |-> <<PR, PR, PR, PR, PR>>, reward |-> <<1, 2, 0, 0, 0>>, tr |-> TwinGraph, final |-> <<4>>]
 TwinB == [n |-> 5, owner |-> <<PR, PR, PR, PR, PR>>, reward |-> <<1, 2, 0, 0, 0>>, tr |-> TwinGraph, final |-> <<3>>]
 
+\* a reachability probability of 1e-13 (two hops): a legal result value far below 1e-12
+Tiny13 == LET t == Tagged(Simple)
+          IN  [t EXCEPT !.transition_list =
+                  PList(<< PList(<<PTuple(<<PFloat(1, 10000000), PInt(1)>>), PTuple(<<PFloat(9999999, 10000000), PInt(2)>>)>>),
+                           PList(<<PTuple(<<PInt(1), PInt(1)>>)>>),
+                           PList(<<PTuple(<<PInt(1), PInt(2)>>)>>) >>),
+                   !.final_states = PList(<<PInt(1)>>)]
+Tiny13b == [Tiny13 EXCEPT !.transition_list =
+                  PList(<< PList(<<PTuple(<<PFloat(1, 10000000), PInt(1)>>), PTuple(<<PFloat(9999999, 10000000), PInt(2)>>)>>),
+                           PList(<<PTuple(<<PFloat(1, 1000000), PInt(3)>>), PTuple(<<PFloat(999999, 1000000), PInt(2)>>)>>),
+                           PList(<<PTuple(<<PInt(1), PInt(2)>>)>>),
+                           PList(<<PTuple(<<PInt(1), PInt(3)>>)>>) >>),
+                   !.rewards = PList(<<PInt(2), PInt(0), PInt(0), PInt(0)>>),
+                   !.players = PList(<<PStr("Probabilistic"), PStr("Probabilistic"), PStr("Probabilistic"), PStr("Probabilistic")>>),
+                   !.final_states = PList(<<PInt(3)>>)]
+
 Pool == << [kind |-> "ok",        tg |-> Tagged(Simple)],
+           [kind |-> "ok",        tg |-> Tiny13b],
            [kind |-> "ok",        tg |-> Tagged(TwinA)],
            [kind |-> "ok",        tg |-> Tagged(TwinB)],
            [kind |-> "okdead",    tg |-> Tagged(Fig55)],
